@@ -77,7 +77,8 @@ def run_check(prop, tier, replay=None):
     if cases and oracle is not None:
         exp = mod.expected(cases, oracle)
         extra_env = getattr(mod, "IMPL_ENV", None)
-        got = lib.run_impl(prop, cases, scratch, extra_env=extra_env)
+        got = lib.run_impl(prop, cases, scratch, extra_env=extra_env,
+                           timeout_per_chunk=getattr(mod, "CHUNK_TIMEOUT", 600), chunk=getattr(mod, "CHUNK", None))
         for k, (case, g, e) in enumerate(zip(cases, got, exp)):
             stats["evaluations"] += 1
             g = dec(g)
